@@ -682,9 +682,14 @@ static void p6_run(uint64_t idx, vh_rng_t * rng) {
     vh_case_desc("uptime: error query after %llu errors went through the queue (capacity 17, never cleared)", (unsigned long long) total);
     vh_watchdog(3600);
     /* keep 3 text-less entries pending while the counters run up */
-    for (i = 0; i < 3; i++) SCPI_ErrorPush(v->ctx, -100);
-    for (i = 0; i < total; i++) { scpi_error_t e; SCPI_ErrorPush(v->ctx, -100); SCPI_ErrorPop(v->ctx, &e); if ((i & 0xffffff) == 0) vh_watchdog(3600); }
-    for (i = 0; i < 3; i++) { scpi_error_t e; SCPI_ErrorPop(v->ctx, &e); }
+    for (i = 0; i < 3; i++) SCPI_ErrorPush(v->ctx, (int16_t) (-100 - (int) i));
+    for (i = 3; i < total + 3; i++) {
+        scpi_error_t e; int16_t want = (int16_t) (-100 - (int) ((i - 3) % 200));
+        SCPI_ErrorPush(v->ctx, (int16_t) (-100 - (int) (i % 200))); SCPI_ErrorPop(v->ctx, &e);
+        if (e.error_code != want) { vh_violation("C18:entry-out-of-order-after-many-errors", "capacity 17, never cleared: after %llu errors the entry taken from the queue has code %d, the one pushed first was %d", (unsigned long long) i, (int) e.error_code, (int) want); break; }
+        if ((i & 0xffffff) == 0) vh_watchdog(3600);
+    }
+    for (i = 0; i < 3; i++) { scpi_error_t e; SCPI_ErrorPop(v->ctx, &e); } /* the flows below start from an empty queue; whatever counters the queue keeps run on */
     /* now the property's own flows on this context */
     for (k = 0; k < 6; k++) {
         static const unsigned char t1[] = "fir\"st", t2[] = "second";
